@@ -2,6 +2,7 @@ package main
 
 import (
 	"go/ast"
+	"go/constant"
 	"go/token"
 	"go/types"
 )
@@ -12,24 +13,48 @@ func init() {
 		c.Rule("R14h", "jsonl reader mode is monotone: in jsonlines.unmarshal every store, inside the line loop, to the boolean that selects between table mode and struct mode is the constant true or `flag || …` — a store that can turn it off again sends later lines to the other accumulator and the function returns only one of the two, so elements read before the flip are dropped")
 		if fd, pk := c.MustFunc("R14h", "builtins/types/jsonlines", "", "unmarshal"); fd != nil {
 			info := pk.TypesInfo
-			// the flag: a bool local that decides the final `if flag { return A } return B`
-			var flag types.Object
-			for _, s := range fd.Body.List {
-				ifs, ok := s.(*ast.IfStmt)
-				if !ok || len(ifs.Body.List) != 1 {
-					continue
+			// the flag(s): a bool local that, alone or negated, is the whole condition of a top-level
+			// `if` or of a case of a top-level tagless switch (`if flag { return A }; return B`,
+			// `if !flag { return B }`, `switch { case flag: … }`, `if flag { result = A }`)
+			flags := map[types.Object]bool{}
+			var flagName string
+			flagOf := func(e ast.Expr) {
+				e = unparen(e)
+				for {
+					u, ok := e.(*ast.UnaryExpr)
+					if !ok || u.Op != token.NOT {
+						break
+					}
+					e = unparen(u.X)
 				}
-				if _, isRet := ifs.Body.List[0].(*ast.ReturnStmt); !isRet {
-					continue
-				}
-				if id, ok := unparen(ifs.Cond).(*ast.Ident); ok {
-					if v, ok := info.ObjectOf(id).(*types.Var); ok && types.Identical(v.Type(), types.Typ[types.Bool]) {
-						flag = v
+				if id, ok := e.(*ast.Ident); ok {
+					if v, ok := info.ObjectOf(id).(*types.Var); ok && !v.IsField() && v.Pkg() != nil && v.Parent() != v.Pkg().Scope() && types.Identical(v.Type().Underlying(), types.Typ[types.Bool]) {
+						if !flags[v] && flagName != "" {
+							flagName += "/"
+						}
+						if !flags[v] {
+							flagName += v.Name()
+						}
+						flags[v] = true
 					}
 				}
 			}
-			if flag == nil {
-				c.Undecided("R14h", "unmarshal:mode-flag", fd.Pos(), "no `if <bool> { return … }` selecting the result at the end of jsonlines.unmarshal")
+			for _, s := range fd.Body.List {
+				switch x := s.(type) {
+				case *ast.IfStmt:
+					flagOf(x.Cond)
+				case *ast.SwitchStmt:
+					if x.Tag == nil {
+						for _, cl := range x.Body.List {
+							for _, e := range cl.(*ast.CaseClause).List {
+								flagOf(e)
+							}
+						}
+					}
+				}
+			}
+			if len(flags) == 0 {
+				c.Undecided("R14h", "unmarshal:mode-flag", fd.Pos(), "no `if <bool> { … }` / `switch { case <bool>: … }` selecting the result at the end of jsonlines.unmarshal")
 			} else {
 				n := 0
 				walkStack(fd.Body, func(nd ast.Node, stack []ast.Node) bool {
@@ -46,9 +71,10 @@ func init() {
 					}
 					for i, l := range as.Lhs {
 						id, ok := unparen(l).(*ast.Ident)
-						if !ok || info.ObjectOf(id) != flag || !inLoop || len(as.Rhs) != len(as.Lhs) {
+						if !ok || !flags[info.ObjectOf(id)] || !inLoop || len(as.Rhs) != len(as.Lhs) {
 							continue
 						}
+						flag := info.ObjectOf(id)
 						n++
 						r := unparen(as.Rhs[i])
 						good := false
@@ -70,7 +96,7 @@ func init() {
 								}
 							}
 						}
-						c.Check(good, "R14h", "unmarshal:mode-store#"+itoa(n), as.Pos(), "store to the mode flag `%s` keeps it on once set (true or `%s || …`) — otherwise an array line after a non-array line switches back to table mode and the elements collected so far are lost", c.src(as), flag.Name())
+						c.Check(good, "R14h", "unmarshal:mode-store#"+itoa(n), as.Pos(), "store to the mode flag `%s` keeps it on once set (true or `%s || …`) — otherwise an array line after a non-array line switches back to table mode and the elements collected so far are lost", c.src(as), flagName)
 					}
 					return true
 				})
@@ -108,8 +134,22 @@ func init() {
 			if B == nil {
 				c.OK("R14i", "marshal:no-cell-drop", fd.Pos(), "csv.marshal contains no `row = row[k:]` under a boolean guard: no cell is dropped")
 			} else {
+				// the data-type names by VALUE (types.Generic, a local `const untyped = types.Generic`, "*")
+				typeVal := map[string]string{}
+				if tp := c.Pkg("lang/types"); tp != nil {
+					for _, nm := range []string{"Generic", "String"} {
+						if k, ok := tp.Types.Scope().Lookup(nm).(*types.Const); ok && k.Val().Kind() == constant.String {
+							typeVal[nm] = constant.StringVal(k.Val())
+						}
+					}
+				}
 				isTypeConst := func(e ast.Expr, name string) bool {
-					return isPkgObj(info, e, mx("lang/types"), name)
+					want, known := typeVal[name]
+					if !known {
+						return isPkgObj(info, e, mx("lang/types"), name)
+					}
+					got, ok := constString(info, e)
+					return ok && got == want
 				}
 				var inputObj types.Object
 				atom := func(e ast.Expr) (string, bool, bool) {
@@ -141,6 +181,32 @@ func init() {
 							if info.ObjectOf(id) == inputObj {
 								return nm, be.Op == token.NEQ, true
 							}
+						}
+					}
+					return "", false, false
+				}
+				// atomRHS: on the right-hand side of a store the guard itself (`B = B && x`: the new value
+				// is on only if the old one was) and any other boolean leaf (`len(v) != 0`) are free atoms
+				atomRHS := func(e ast.Expr) (string, bool, bool) {
+					if nm, neg, ok := atom(e); ok {
+						if id, isID := unparen(e).(*ast.Ident); isID && info.ObjectOf(id) == B {
+							return "prev", false, true
+						}
+						return nm, neg, ok
+					}
+					switch y := unparen(e).(type) {
+					case *ast.UnaryExpr:
+						if y.Op == token.NOT {
+							return "", false, false
+						}
+					case *ast.BinaryExpr:
+						if y.Op == token.LAND || y.Op == token.LOR {
+							return "", false, false
+						}
+					}
+					if tv, ok := info.Types[unparen(e)]; ok && tv.Type != nil && tv.Value == nil {
+						if b, isB := tv.Type.Underlying().(*types.Basic); isB && b.Info()&types.IsBoolean != 0 {
+							return "expr:" + c.src(e), false, true
 						}
 					}
 					return "", false, false
@@ -181,8 +247,79 @@ func init() {
 					}
 					// the store happens only under its guards: the effective value is guards ∧ rhs
 					var guardTerms []ast.Expr
-					for _, ft := range factsOf(guardsAt(info, stack)) {
-						var modelOK func(e ast.Expr) bool
+					var modelOK func(e ast.Expr) bool
+					gs := guardsAt(info, stack)
+					var facts []Fact
+					for _, g := range gs {
+						if g.Tag == nil || len(g.Cases) == 0 {
+							continue
+						}
+						// arm of a tagged switch: tag == c1 || tag == c2 … (default arm: none of them);
+						// void when the arm can be entered by fallthrough
+						entered := false
+						for _, a := range stack {
+							sw, ok := a.(*ast.SwitchStmt)
+							if !ok || sw.Tag != g.Tag {
+								continue
+							}
+							for ci, cl := range sw.Body.List {
+								if ci == 0 || !(cl.Pos() <= nd.Pos() && nd.End() <= cl.End()) {
+									continue
+								}
+								prev := sw.Body.List[ci-1].(*ast.CaseClause)
+								if k := len(prev.Body); k > 0 {
+									if br, isBr := prev.Body[k-1].(*ast.BranchStmt); isBr && br.Tok == token.FALLTHROUGH {
+										entered = true
+									}
+								}
+							}
+						}
+						if entered {
+							continue
+						}
+						var dis ast.Expr
+						for _, cs := range g.Cases {
+							eq := &ast.BinaryExpr{X: g.Tag, Op: token.EQL, Y: cs}
+							if dis == nil {
+								dis = eq
+							} else {
+								dis = &ast.BinaryExpr{X: dis, Op: token.LOR, Y: eq}
+							}
+						}
+						facts = append(facts, Fact{E: dis, True: !g.Neg})
+					}
+					facts = append(facts, factsOf(gs)...)
+					// a later `if g { B = … }` in the same statement list, with nothing that mentions B in
+					// between, overrides this store whenever g holds: its value survives only under !g
+					if as, isAs := nd.(*ast.AssignStmt); isAs && len(stack) >= 2 {
+						var list []ast.Stmt
+						switch blk := stack[len(stack)-2].(type) {
+						case *ast.BlockStmt:
+							list = blk.List
+						case *ast.CaseClause:
+							list = blk.Body
+						}
+						if idx := topLevelIndex(list, as); idx >= 0 && list[idx] == ast.Stmt(as) {
+							for _, nx := range list[idx+1:] {
+								if !mentions(info, nx, B) {
+									continue
+								}
+								ifs, ok := nx.(*ast.IfStmt)
+								if !ok || ifs.Init != nil || ifs.Else != nil || len(ifs.Body.List) != 1 || mentions(info, ifs.Cond, B) {
+									break
+								}
+								ov, ok := ifs.Body.List[0].(*ast.AssignStmt)
+								if !ok || ov.Tok != token.ASSIGN || len(ov.Lhs) != 1 || len(ov.Rhs) != 1 {
+									break
+								}
+								if oid, ok := unparen(ov.Lhs[0]).(*ast.Ident); !ok || info.ObjectOf(oid) != B {
+									break
+								}
+								facts = append(facts, Fact{E: ifs.Cond, True: false})
+							}
+						}
+					}
+					for _, ft := range facts {
 						modelOK = func(e ast.Expr) bool {
 							e = unparen(e)
 							if _, _, ok := atom(e); ok {
@@ -223,7 +360,7 @@ func init() {
 						var collect func(x ast.Expr)
 						collect = func(x ast.Expr) {
 							x = unparen(x)
-							if nm, _, ok := atom(x); ok {
+							if nm, _, ok := atomRHS(x); ok {
 								if !seen[nm] {
 									seen[nm] = true
 									atoms = append(atoms, nm)
@@ -243,14 +380,14 @@ func init() {
 							c.Undecided("R14i", key, rhs[i].Pos(), "too many atoms in %s", c.src(rhs[i]))
 							continue
 						}
-						tt, unk := truthTable(e, atoms, atom)
+						tt, unk := truthTable(e, atoms, atomRHS)
 						if len(unk) > 0 {
 							c.Undecided("R14i", key, rhs[i].Pos(), "store %s = %s contains a leaf outside the model: %v", B.Name(), c.src(rhs[i]), unk)
 							continue
 						}
 						bad := ""
 						for m, v := range tt {
-							g, s := false, false
+							g, s, prev := false, false, false
 							for ai, a := range atoms {
 								if m&(1<<ai) != 0 {
 									if a == "Generic" {
@@ -259,9 +396,12 @@ func init() {
 									if a == "String" {
 										s = true
 									}
+									if a == "prev" {
+										prev = true
+									}
 								}
 							}
-							if v && !g && !s {
+							if v && !g && !s && !prev {
 								bad = "true for an input type that is neither generic nor str"
 							}
 						}
